@@ -51,6 +51,9 @@ class Gen:
         self.closed = False
 
     def m___next__(self, ctx, r, a, k):
+        if self.closed:
+            # next() on a generator that was closed raises StopIteration (inside a generator: RuntimeError for its caller)
+            raise PyExc(ExcVal(StopIteration, ()))
         self.calls += 1
         if self.calls == 1 and Gen.MAY_WAIT and ctx.fork(2, self.name + "-ready") == 1:
             return None
@@ -151,7 +154,10 @@ def respondent_parse_head(B, focus):
 
     def havoc(interp, fr):
         ctx.st(self)["closed"] = ctx.fresh("bool", "closed*")
-    B.loop(RESP + ".parseHead", 0, invariant=[], modifies=[havoc])
+    # loop invariant: the status-line parser the next turn will call next() on is OPEN (next() on a closed generator raises
+    # StopIteration, which leaves a generator as RuntimeError -- not an HTTPException: it would escape Client.service)
+    B.prog.spec_env["line_open"] = ModelFn(lambda c, a, k: not c.st(a[0])["model"].closed, "spec:line_open")
+    B.loop(RESP + ".parseHead", 0, invariant=["line_open(lineParser)"], modifies=[havoc])
     yields = []
 
     def on_yield(interp, fr, e, v):
